@@ -690,9 +690,9 @@ func (st *runState) finishWith(ri *simcheck.RunInfo, sim *simrt.Sim, sys *System
 							}
 						}
 						sort.Strings(have)
-						add("C04", "acked-sample-not-indexed", st.classifyIndexMiss(f, tp, lo, hi, have, seriesAt, r),
-							fmt.Sprintf("req%d (%s) acknowledged %d; sample ts=%s type=%d fingerprint=%d has no successfully inserted series row with day in [%d,%d] before the ack; series rows of that fingerprint (fp|type|day): %v; tz offset %d min",
-								r.ID, r.Op.Proto, r.Status, tm.UTC().Format(time.RFC3339Nano), tp, f, lo, hi, have, s.Cfg.TZOffsetMin))
+						add("C04", "acked-sample-not-indexed", st.classifyIndexMiss(f, tp, lo, hi, have, seriesAt, r, x),
+							fmt.Sprintf("req%d (%s) acknowledged %d at ev %d (started ev %d); sample ts=%s type=%d fingerprint=%d has no successfully inserted series row with day in [%d,%d] before the ack; series rows of that fingerprint (fp|type|day): %v; tz offset %d min; blocks: %s",
+								r.ID, r.Op.Proto, r.Status, r.StatusEv, r.StartEv, tm.UTC().Format(time.RFC3339Nano), tp, f, lo, hi, have, s.Cfg.TZOffsetMin, st.blockSummary(30)))
 					}
 				}
 			}
@@ -866,36 +866,103 @@ func (st *runState) noOtherTs(ts int64) bool {
 }
 
 // classifyIndexMiss turns a missing index row into a signature that names the history class.
-func (st *runState) classifyIndexMiss(f, tp uint64, lo, hi int64, have []string, seriesAt map[string][]int64, r *ReqRec) string {
-	// a row for this fingerprint exists but under a day outside [lo,hi]
+func (st *runState) classifyIndexMiss(f, tp uint64, lo, hi int64, have []string, seriesAt map[string][]int64, r *ReqRec, x *ExpRow) string {
+	// (1) a series row for this key was submitted by some push, but its INSERT had not succeeded when
+	// this push was acknowledged (failed, still in flight, or completed later)
+	pending := false
+	for _, blk := range st.db.Blocks {
+		if !strings.HasPrefix(blk.Table, "time_series") || !blk.Rect {
+			continue
+		}
+		if blk.Finished && blk.Err == nil && blk.EndEv < r.StatusEv {
+			continue
+		}
+		if blk.StartEv > r.StatusEv {
+			continue
+		}
+		fc, tc, dc := blk.Col("fingerprint"), blk.Col("type"), blk.Col("date")
+		if fc == nil || tc == nil || dc == nil {
+			continue
+		}
+		for i := 0; i < blk.Rows; i++ {
+			d := dc.Vals[i].(int64)
+			if fc.Vals[i].(uint64) == f && (tc.Vals[i].(uint64) == tp || tc.Vals[i].(uint64) == 0) && d >= lo && d <= hi {
+				pending = true
+			}
+		}
+	}
+	if !pending {
+		// the series row may not even have been sent yet: it belongs to the push that claimed the cache
+		// entry first; if that is another push, this is the same history class. Who pushed samples of
+		// this (fingerprint, type, day) is read off the sample blocks (whatever their outcome).
+		day := func(ts int64) int64 { return time.Unix(0, ts).UTC().Unix() / 86400 }
+		// (a stream claims the cross product of the days and types it contains)
+		daysOf, typesOf := map[int]map[int64]bool{}, map[int]map[uint64]bool{}
+		for _, blk := range st.db.Blocks {
+			if !strings.HasPrefix(blk.Table, "samples_v3") || !blk.Rect {
+				continue
+			}
+			fc, tc, sc, vc, tsc := blk.Col("fingerprint"), blk.Col("type"), blk.Col("string"), blk.Col("value"), blk.Col("timestamp_ns")
+			if fc == nil || tc == nil || sc == nil || vc == nil || tsc == nil {
+				continue
+			}
+			for i := 0; i < blk.Rows; i++ {
+				if fc.Vals[i].(uint64) != f {
+					continue
+				}
+				var y *ExpRow
+				if tag := tagOf(sc.Vals[i].(string)); tag != "" {
+					y = st.exp[tag]
+				} else {
+					y = st.expVal[vc.Vals[i].(float64)]
+				}
+				if y == nil {
+					continue
+				}
+				if daysOf[y.Req] == nil {
+					daysOf[y.Req], typesOf[y.Req] = map[int64]bool{}, map[uint64]bool{}
+				}
+				daysOf[y.Req][day(tsc.Vals[i].(int64))] = true
+				typesOf[y.Req][tc.Vals[i].(uint64)] = true
+			}
+		}
+		claimers := map[int]bool{}
+		for id := range daysOf {
+			if daysOf[id][day(x.TsNs)] && typesOf[id][tp] {
+				claimers[id] = true
+			}
+		}
+		for _, o := range st.reqs {
+			if o.ID != r.ID && o.StartEv < r.StatusEv && claimers[o.ID] {
+				pending = true
+			}
+		}
+	}
+	if pending {
+		return "the (day,fingerprint,type) cache was set by a push whose series INSERT had not succeeded (failed or still in flight); this push was acknowledged without a durable series row"
+	}
+	// (2) a row for this fingerprint exists but under a day outside [lo,hi]
+	for _, k := range have {
+		var ff, tt uint64
+		var d int64
+		fmt.Sscanf(k, "%d|%d|%d", &ff, &tt, &d)
+		if (tt == tp || tt == 0) && d >= lo && d <= hi {
+			return "series row for the sample's day exists but completed after the ack"
+		}
+	}
 	for _, k := range have {
 		var ff, tt uint64
 		var d int64
 		fmt.Sscanf(k, "%d|%d|%d", &ff, &tt, &d)
 		if (tt == tp || tt == 0) && d < lo {
-			return fmt.Sprintf("series row stored under an earlier day than the reader searches (zone offset %+d min)", st.s.Cfg.TZOffsetMin)
+			return fmt.Sprintf("series row stored only under an earlier day than the reader searches (zone offset %+d min)", st.s.Cfg.TZOffsetMin)
 		}
 		if (tt == tp || tt == 0) && d > hi {
-			return "series row stored under a later day than the sample"
+			return "series row stored only under a later day than the sample"
 		}
-	}
-	failedSeries := false
-	for _, blk := range st.db.Blocks {
-		if strings.HasPrefix(blk.Table, "time_series") && blk.Err != nil {
-			if c := blk.Col("fingerprint"); c != nil {
-				for _, v := range c.Vals {
-					if v.(uint64) == f {
-						failedSeries = true
-					}
-				}
-			}
-		}
-	}
-	if failedSeries {
-		return "series insert failed earlier; the (day,fingerprint) cache still suppresses the series row on the client's next push"
 	}
 	if len(have) > 0 {
-		return "series row exists only with another type or completed after the ack"
+		return "series row exists only with another type"
 	}
 	return "no series row at all for an acknowledged sample"
 }
